@@ -212,7 +212,7 @@ class Cron(addons.AddonMainTask, block.SBlock):
                         ):
                     self.log_warning("Apparently a DST (summer time) clock change has occured.")
                 self.log_warning("Resetting due to a time tracking problem.")
-                for blk in set.union(*self._alarms.values()):    # all blocks
+                for blk in set().union(*self._alarms.values()):  # all blocks
                     assert hasattr(blk, 'recalc')
                     blk.recalc(nowdt)
                 index = None
